@@ -310,6 +310,17 @@ def r20_3(ctx, repo):
             def at_time(v):
                 return isinstance(v, Series) and tvar is not None and any(
                     f.endswith('== ' + tvar) for f in v.filters())
+            approx = isinstance(ranked, Series) and tvar is not None and [
+                f for f in ranked.filters() if f.endswith('~= ' + tvar)]
+            if approx:
+                ctx.violation(
+                    rule, where, construct, 'approximate time match',
+                    'the samples of a time point are selected with `%s`, an '
+                    'approximate comparison: distinct time points that are '
+                    'close relative to their magnitude are pooled, so the '
+                    'band limits at a time are no longer ranks of that '
+                    'time\'s own samples' % approx[0])
+                continue
             per_time = loop is not None and at_time(ranked)
             if loop is not None and not isinstance(ranked, Series):
                 ctx.error(rule, '%s: provenance of the ranked series `%s` '
